@@ -346,6 +346,32 @@ fn random(src: &mut Src, st: &mut Stats, _env: &Env) -> CaseResult {
         }
         st.class("other-subject-forms");
     }
+    // a slice directly after another projection bracket applies to each element: every
+    // spelling of the slice (parts omitted or not) must still be a sentence there
+    if src.chance(70) && c.unwrap_or(1) != 0 {
+        let rows = 1 + src.below(4);
+        let m: Vec<Vec<usize>> = (0..rows).map(|r| (0..(len % 7 + r)).map(|i| 10 * r + i).collect()).collect();
+        let doc = json!({"m": m, "o": {"p": m[0], "q": [1, 2, 3]}, "mixed": [m[0], 5, null, "s"]}).to_string();
+        let sl = &slice_expr(a, b2, c)[2..];
+        let apply = |row: &Vec<usize>| -> serde_json::Value { json!(slice_indices(row.len(), a, b2, c.unwrap_or(1)).into_iter().map(|i| row[i]).collect::<Vec<usize>>()) };
+        let per_row: Vec<serde_json::Value> = m.iter().map(apply).collect();
+        let forms: Vec<(String, serde_json::Value)> = vec![
+            (format!("m[*]{}", sl), json!(per_row)),
+            (format!("m[0:]{}", sl), json!(per_row)),
+            (format!("m[?`true`]{}", sl), json!(per_row)),
+            (format!("m | [*]{}", sl), json!(per_row)),
+            (format!("o.*{}", sl), json!([apply(&m[0]), apply(&vec![1, 2, 3])])),
+            (format!("mixed[*]{}", sl), json!([apply(&m[0])])),
+        ];
+        let (text, want) = &forms[src.below(forms.len())];
+        st.eval();
+        let wantj = J::from_value(want);
+        match search_text(text, &doc) {
+            ImpOut::Ok(g) if g.deep_eq(&wantj) => {}
+            other => return Err(Failure::new("random", "slice-after-projection-wrong", format!("{} gave {} expected {}", text, other.brief(), wantj.to_json()), json!({"expression": text, "document": doc}))),
+        }
+        st.class("slice-after-projection");
+    }
     Ok(())
 }
 
